@@ -677,6 +677,45 @@ theorem decodeCursor_encodeScore (req : Req) (c : ScoreCursor) (hw : c.wf) (hv :
   apply (decodeCursor_ok req _ _).mpr
   exact Or.inl ⟨hf, c, cursor_roundtrip_score c hw hv hr, hg, rfl⟩
 
+/-- **cursor_roundtrip (sort cursor)** — `hex_decode` + `serde_json::from_slice` applied to
+`hex_encode(serde_json::to_vec(state))` give the state back, for every state the code can produce:
+integer fields within their Rust types, keyword values valid UTF-8 (any bytes otherwise: quotes,
+backslashes and control characters go through the escapes), `i64` within range, score bits `u32`,
+`f64` values given by a complete JSON number lexeme (`FLex`; what the float printer/parser make of
+the number is outside the model — the known f64 finding lives exactly there). -/
+theorem cursor_roundtrip_sort (c : SortCursor) (hw : c.wf) : parseSort (encodeSort c) = .ok c := by
+  unfold parseSort encodeSort
+  have hl : (hexEncode (sortJson c)).length % 2 = 0 := by rw [hexEncode_length]; omega
+  simp only [hl, ne_eq, not_true_eq_false, if_false, hexDecode_hexEncode]
+  exact parseSortJson_sortJson c hw
+
+/-- the same through `decode_cursor` of a request with the cursor's generation, plan hash, arity -/
+theorem decodeCursor_encodeSort (req : Req) (c : SortCursor) (hw : c.wf) (hf : req.scoreFast = false)
+    (hv : c.version = sortCursorVersion) (hg : c.generation = req.generation)
+    (hh : c.planHash = req.planHash) (hr : c.returned ≤ maxCursorAdvance)
+    (hl : c.values.length = req.planLen) :
+    decodeCursor req (encodeSort c) =
+      .ok ⟨c.values, c.segmentOrd, c.docId, c.returned, c.generation, some c.planHash⟩ := by
+  apply (decodeCursor_ok req _ _).mpr
+  refine Or.inr ⟨hf, c, cursor_roundtrip_sort c hw, ?_, rfl⟩
+  exact (checkSort_ok req c c).mpr ⟨rfl, hv, hg, hh, hr, hl⟩
+
+/-- the lexeme class `FLex` is inhabited: every integer lexeme belongs to it (serde_json prints
+integral doubles up to 1e16 with a trailing `.0`; the `decide`d example below covers a fraction and
+an exponent) -/
+theorem flex_natDec (n : Nat) : FLex (natDec n) := by
+  intro R hR
+  refine ⟨skipWs_natDec n R, _, lexNum_natDec n R hR, rfl, rfl⟩
+
+-- non-vacuity of `cursor_roundtrip_sort` (every kind of value, a quote, a tab, a multi-byte
+-- character and a negative number), decided on the bytes
+set_option maxRecDepth 1000000 in
+example : parseSort (encodeSort ⟨2, 3, 4, 885219400, 1, 2,
+    [.score 1065353216, .i64 (-5), .f64 [49, 46, 53, 101, 51], .str [113, 34, 9, 195, 169], .missing]⟩)
+    = .ok ⟨2, 3, 4, 885219400, 1, 2,
+    [.score 1065353216, .i64 (-5), .f64 [49, 46, 53, 101, 51], .str [113, 34, 9, 195, 169], .missing]⟩ := by
+  decide
+
 /-! ## F. `decode_cursor` is total -/
 
 /-- **decode_total** — on every byte string (any length, any bytes, any request) the decoder
